@@ -52,6 +52,16 @@ class SyncProp(Prop):
                     gf.update({"name": hf["name"], "prestate": "shared", "content": None})
                     shared = True
         run.dist["shared_target_file"][shared] += 1
+        # a package layout: every target in a directory of its own, all under the file name of the truth
+        # (`pkg_a/config.py` is the truth's namesake, not the truth)
+        pkg = not shared and r.random() < 0.25
+        if pkg:
+            tname = cfg["kinds"][cfg["truth"]]["files"][0]["name"]
+            for k, kd in cfg["kinds"].items():
+                for j, f in enumerate(kd["files"]):
+                    if f["prestate"] != "truth":
+                        f["name"] = "pkg_%s_%d/%s" % (k, j, tname)
+        run.dist["package_layout"][pkg] += 1
         run.dist["truth"][cfg["truth"]] += 1
         return {"cfg": cfg, "via_cli": r.random() < 0.4}
 
@@ -227,9 +237,7 @@ class C10(SyncProp):
                 for line in rr["printed"].splitlines():
                     parts = line.split("\t")
                     if len(parts) == 2 and parts[0] in ("modified", "unchanged"):
-                        import os
-
-                        n = os.path.basename(parts[1])
+                        n = parts[1]  # (run_syncs has made the printed paths relative to the project root)
                         multi = sum(1 for kd in cfg["kinds"].values() for f in kd["files"] if f["name"] == n) > 1
                         if multi and parts[0] == "unchanged":
                             continue  # printed per step: another step of the same run may have changed the file
